@@ -3,6 +3,7 @@ package main
 import (
 	"fmt"
 	"os"
+	"time"
 	"path/filepath"
 	"strings"
 	"sync"
@@ -48,6 +49,8 @@ func collectRaceReports(res *Result, check string) {
 type concDevice struct {
 	conn        *ScriptConn
 	rtu         bool
+	delay       time.Duration // hold every reply this long (gives overlapping exchanges a chance to show)
+	inflight    int32
 	outstanding int32
 	overlap     int32
 	frames      int32
@@ -70,8 +73,9 @@ func (d *concDevice) attach() {
 			atomic.AddInt32(&d.badFrames, 1)
 			return
 		}
-		if len(d.conn.Pending()) != 0 {
-			// a request was written while the previous reply was still unread: two requests outstanding
+		if len(d.conn.Pending()) != 0 || atomic.LoadInt32(&d.inflight) != 0 {
+			// a request was written while the previous one was unanswered / its reply unread:
+			// two requests outstanding on the connection
 			atomic.AddInt32(&d.overlap, 1)
 		}
 		var pl []byte
@@ -96,7 +100,17 @@ func (d *concDevice) attach() {
 		default:
 			pl = append([]byte(nil), w.payload[:4]...)
 		}
-		d.conn.Feed(w.frame(w.unit, w.fc, pl))
+		reply := w.frame(w.unit, w.fc, pl)
+		if d.delay > 0 {
+			atomic.AddInt32(&d.inflight, 1)
+			go func() {
+				time.Sleep(d.delay)
+				d.conn.Feed(reply)
+				atomic.AddInt32(&d.inflight, -1)
+			}()
+			return
+		}
+		d.conn.Feed(reply)
 	}
 }
 
@@ -223,8 +237,13 @@ func init() {
 					return
 				}
 				dev := &concDevice{conn: conn, rtu: isRTUKind(kind)}
+				iters := 150
+				if pi%3 == 1 {
+					dev.delay = 300 * time.Microsecond // replies held back: an overlapping second request becomes visible
+					conn.BlockFor = 50 * time.Millisecond
+					iters = 12
+				}
 				dev.attach()
-				iters := 12
 				if kind != "tcp" {
 					iters = 3
 				}
